@@ -160,7 +160,7 @@ var namedRef = map[byte]string{'%': "&percnt;", '?': "&quest;", '#': "&num;", '/
 // CharRefSpellings returns the ways c can be written as an HTML character reference
 // (decimal, hex in both cases, zero-padded, named; with and without the semicolon).
 func CharRefSpellings(c byte) []string {
-	out := []string{fmt.Sprintf("&#%d;", c), fmt.Sprintf("&#x%x;", c), fmt.Sprintf("&#X%X;", c), fmt.Sprintf("&#%04d;", c), fmt.Sprintf("&#x%04x;", c), fmt.Sprintf("&#%d", c), fmt.Sprintf("&#x%x", c)}
+	out := []string{fmt.Sprintf("&#%d;", c), fmt.Sprintf("&#x%x;", c), fmt.Sprintf("&#X%X;", c), fmt.Sprintf("&#%04d;", c), fmt.Sprintf("&#x%04x;", c), fmt.Sprintf("&#%d", c), fmt.Sprintf("&#x%x", c), fmt.Sprintf("&#%08d", c), fmt.Sprintf("&#%011d", c), fmt.Sprintf("&#x%07x", c), fmt.Sprintf("&#X%09X", c), fmt.Sprintf("&#%09d;", c)}
 	if n, ok := namedRef[c]; ok {
 		out = append(out, n)
 	}
